@@ -39,7 +39,8 @@ def gen_frames(R, kind, stream_state, small=False, allow_stream=True):
         if k == "ack":
             others.append(["ack", R.range(0, 5000), R.range(0, 3000), R.range(0, 20),
                            [[R.range(0, 10), R.range(0, 10)] for _ in range(R.range(0, 3))],
-                           [R.range(0, 100)] * 3 if R.chance(20) else None, w()])
+                           [R.weighted([(R.range(0, 63), 40), (R.range(64, 20000), 60)]), R.range(0, 70), R.range(0, 3)]
+                           if R.chance(20) else None, w()])
         elif k == "ping":
             others.append(["ping"])
         elif k == "pad":
@@ -162,8 +163,18 @@ def gen_quic_conn(R, cid, cfg, used, **epkw):
         if "s" in sides and fl["s"] and A.chance(cfg.get("nst_pct", 20)):
             # the server sends a NewSessionTicket: a TLS handshake message in a CRYPTO frame of a 1-RTT packet
             pk0 = fl["s"][0]["pk"][0]
-            pk0["frames"].insert(A.below(len([x for x in pk0["frames"] if x[0] != "stream" or x[4]]) + 1) if False else 0,
-                                 ["nst", A.range(20, 200)])
+            nstlen = A.range(20, 200)
+            NP = R.fork("nstpos", f)
+            pos = 0
+            if NP.chance(50):
+                # behind other frames of the packet (never behind a STREAM / DATAGRAM frame without length: it ends the packet)
+                lim = len(pk0["frames"])
+                for i_, x in enumerate(pk0["frames"]):
+                    if (x[0] == "stream" and not x[4]) or (x[0] == "datagram" and not x[2]):
+                        lim = i_
+                        break
+                pos = NP.range(0, lim)
+            pk0["frames"].insert(pos, ["nst", nstlen])
         script.append(fl)
     if script and script[-1].get("c") and script[-1].get("s") and A.chance(cfg.get("close_pct", 20)):
         # one side closes the connection with a TLS alert (CONNECTION_CLOSE 0x1c, CRYPTO_ERROR) while packets of the
@@ -416,7 +427,8 @@ def build_units(conn):
         pnlen = max(pnlen, need)
         if kind == "1rtt":
             keys = app_keys(sd.gen, d)
-            hdr = Q.short_header(sd.dcid, pnlen, sd.gen & 1, spin=(extra or {}).get("spin", 0))
+            hdr = Q.short_header(sd.dcid, pnlen, sd.gen & 1, spin=(extra or {}).get("spin", 0),
+                                 fixed=0 if (q.get("grease_bit") and d in q["grease_bit"]) else 1)
             raw = Q.protect(keys, hdr, pn, pnlen, payload, False)
             lvl = "Application"
         else:
@@ -433,7 +445,8 @@ def build_units(conn):
                 ptype = Q.ZERO_RTT
                 lvl = "Early"
             hdr = Q.long_header(ptype, sd.dcid, sd.scid, pnlen, pnlen + len(payload) + 16, token=token,
-                                length_width=(extra or {}).get("lw"))
+                                length_width=(extra or {}).get("lw"),
+                                fixed=0 if (q.get("grease_bit") and d in q["grease_bit"]) else 1)
             raw = Q.protect(keys, hdr, pn, pnlen, payload, True)
         pm = {"d": d, "kind": kind, "space": SPACE[kind], "pn": pn, "pnlen": pnlen, "frames": meta, "level": lvl,
               "boundary": bool((extra or {}).get("boundary")), "ext_last": bool((extra or {}).get("ext_last")),
@@ -788,7 +801,7 @@ def reduction_candidates(conn):
                 c = copy.deepcopy(conn)
                 del c["q"]["script"][i][key]
                 yield "flight %d: no %s" % (i, key), c
-    for key, simple in (("retry", False), ("zero_rtt", None), ("early_s", False), ("hs_dup", None), ("one_way", None), ("migrate_at", None), ("ncid_len", None), ("vneg_prelude", None), ("ch_retx", None), ("s_coalesce", False),
+    for key, simple in (("retry", False), ("zero_rtt", None), ("early_s", False), ("hs_dup", None), ("one_way", None), ("migrate_at", None), ("ncid_len", None), ("vneg_prelude", None), ("ch_retx", None), ("grease_bit", None), ("s_coalesce", False),
                         ("c_coalesce", False), ("ch_cuts", []), ("pad_mode", "frames")):
         if q.get(key) not in (simple, None, False, []):
             c = copy.deepcopy(conn)
